@@ -42,6 +42,12 @@ def run(tier):
         for e in tr:
             e["tid"] += 10**6
     traces += extra
+    # containers whose priority differs from their pipeline's (the scheduler's choice, e.g. an external policy running everything as QUERY)
+    boosted = driver_sched.gen_traces(N[tier] // 8, common.seed() + 609, policies=["naive", "overbook"], flavours=(("mixed", 0.6), ("twins", 0.4)), boost=True)
+    for tr in boosted:
+        for e in tr:
+            e["tid"] += 3 * 10**6
+    traces += boosted
     traces += [c.get(timeout=3000) for c in crowd]
     cpool.close()
     rep.extra["crowd_runs"] = [tr[-1]["stats"]["pipelines_all"]["completion_count"] if tr[-1]["ok"] else None for tr in traces[-ncrowd:]]
@@ -72,7 +78,7 @@ def replay(path):
     rep = Report("C06", "quick")
     f = {"C-uncontended": driver_sim.run_uncontended, "A-crowd": driver_sched.crowd_run}.get(rp.get("driver"), driver_sim.run_random)
     if rp.get("driver") == "A":
-        f = lambda sd, tid: driver_sched.run_scenario(sd, tid, meta_of(payload).get("policy"), meta_of(payload).get("flavour"))
+        f = lambda sd, tid: driver_sched.run_scenario(sd, tid, meta_of(payload).get("policy"), meta_of(payload).get("flavour"), boost=bool(meta_of(payload).get("boost")))
     mon = _validate([f(rp["seed"], 0)], rep)
     for v in mon.viols[:10]:
         print("  ", json.dumps(v)[:400])
